@@ -296,8 +296,13 @@ pub fn curated() -> Vec<(String, Vec<DObj>)> {
         ("regex", list(&|n| format!("?{n}"))),
         ("iregex", list(&|n| format!("i?{n}"))),
         ("anchored regex", list(&|n| format!("?^{n}$"))),
+        // regex escapes are case-significant although the pattern is case-insensitive
+        ("iregex digit", list(&|n| format!("i?\\d{n}"))),
+        ("iregex non-digit", list(&|n| format!("i?\\D{n}"))),
+        ("regex word", list(&|n| format!("?\\w{n}"))),
+        ("regex non-word", list(&|n| format!("?\\W{n}"))),
     ];
-    let texts = ["n003x", "N003X", "zn003xz", "ZN003XZ", "n003xz", "zn003x", "n003", "n003x n007x", "N003X n007x"];
+    let texts = ["n003x", "N003X", "zn003xz", "ZN003XZ", "n003xz", "zn003x", "n003", "n003x n007x", "N003X n007x", "5n003x", " n003x", "5N003X"];
     let mut docs: Vec<DObj> = vec![DObj::default()];
     for t in texts {
         docs.push(DObj(vec![("f1".to_string(), DocVal::s(t))]));
@@ -306,6 +311,56 @@ pub fn curated() -> Vec<(String, Vec<DObj>)> {
     docs.push(DObj(vec![("f1".to_string(), DocVal::arr(vec![DocVal::s("N003X"), DocVal::s("n007x")]))]));
     docs.push(DObj(vec![("f1".to_string(), DocVal::Int(3))]));
     let mut out = vec![];
+    // single patterns that differ only in the case of an escape / of the flag
+    for p in ["i?^\\d+$", "i?^\\D+$", "?^\\d+$", "?^\\D+$", "i?^\\s*n", "i?^\\S*n"] {
+        out.push((
+            format!("detection:\n  A:\n    f1: '{p}'\n  condition: A\ntrue_positives: []\ntrue_negatives: []\n"),
+            vec![
+                DObj(vec![("f1".to_string(), DocVal::s("123"))]),
+                DObj(vec![("f1".to_string(), DocVal::s("abc"))]),
+                DObj(vec![("f1".to_string(), DocVal::s("n1"))]),
+                DObj(vec![("f1".to_string(), DocVal::s(" n"))]),
+            ],
+        ));
+    }
+    // loads that fail part-way through (a dangling sign, an unterminated cast, a bad pattern) next
+    // to rules with number literals in the condition: whatever a failed load leaves behind must not
+    // reach the next rule
+    let nums: Vec<DObj> = [-7i64, -5, -3, 0, 3, 5, 7]
+        .iter()
+        .map(|n| DObj(vec![("n1".to_string(), DocVal::Int(*n)), ("f1".to_string(), DocVal::s("n003x"))]))
+        .collect();
+    let with_cond = |c: &str| format!("detection:\n  A:\n    f1: n003x\n  condition: {c}\ntrue_positives: []\ntrue_negatives: []\n");
+    for (good, bad) in [
+        ("A and int(n1) > 5", "A and int(n1) > - 1"),
+        ("int(n1) < 3 and A", "int(n1) == -"),
+        ("A and flt(n1) >= 2.5", "A and flt(n1) > -."),
+        ("of(A, 1) and int(n1) == 5", "of(A, -"),
+        ("A and int(n1) > 5", "A and int(n1"),
+    ] {
+        out.push((with_cond(good), nums.clone()));
+        out.push((with_cond(bad), nums.clone()));
+        out.push((with_cond(good), nums.clone()));
+    }
+    for bad_key in ["event-id", "a - 1", "int(n1", "of(f1, -)"] {
+        out.push((with_cond("A and int(n1) >= 3"), nums.clone()));
+        out.push((
+            format!("detection:\n  A:\n    '{bad_key}': 4624\n  condition: A\ntrue_positives: []\ntrue_negatives: []\n"),
+            nums.clone(),
+        ));
+        out.push((with_cond("A and 3 <= int(n1)"), nums.clone()));
+    }
+    // floats of both signs of zero under a cast, in alternation
+    let zeros: Vec<DObj> = [0.0f64, -0.0, 0.0, 1.0, -0.0, -0.0, 0.0]
+        .iter()
+        .map(|z| DObj(vec![("f1".to_string(), DocVal::Float(*z))]))
+        .collect();
+    for p in ["'0'", "'-0'", "'0*'", "'-*'", "['0', '1']"] {
+        out.push((
+            format!("detection:\n  A:\n    str(f1): {p}\n  condition: A\ntrue_positives: []\ntrue_negatives: []\n"),
+            zeros.clone(),
+        ));
+    }
     for (_, members) in &variants {
         for key in ["f1", "f2", "str(f1)", "all(f1)", "of(f1, 2)", "not(f1)"] {
             out.push((
@@ -328,6 +383,15 @@ fn digest_line(text: &str, docs: &[DObj], bits: u8) -> String {
                         _ => 'P',
                     })
                     .collect();
+                // equal documents at different positions of the sequence must get equal results
+                let vs: Vec<char> = v.chars().collect();
+                for i in 0..docs.len() {
+                    for j in 0..i {
+                        if vs[i] != vs[j] && docs[i].show() == docs[j].show() {
+                            return format!("{:016x} {v} HISTORY-DEPENDENT: documents #{j} and #{i} are equal ({})", hash_str(&snapshot(&o)), docs[i].show());
+                        }
+                    }
+                }
                 format!("{:016x} {v}", hash_str(&snapshot(&o)))
             }
             Err(_) => "optimise-panic".to_string(),
@@ -357,7 +421,7 @@ fn twins_disagreement() -> Result<(usize, Option<(usize, String, String)>), Stri
         return Err(format!("curated worker output incomplete ({} / {} of {n} lines)", la.len(), lb.len()));
     }
     for (i, (x, y)) in la.iter().zip(lb.iter()).enumerate() {
-        if x != y {
+        if x != y || x.contains("HISTORY-DEPENDENT") {
             return Ok((n, Some((i, x.to_string(), y.to_string()))));
         }
     }
